@@ -28,7 +28,7 @@ def my_escape_bytes(b):
 
 LITS = ['a', 'ab', 'Abc', 'a+b', 'x.y', '(', ')', '[a]', 'a|b', 'a*', 'a?', '\\', '\\d', '^a$', '{2}', 'a-b', '#', '&&', '~',
         'é', 'É', 'ß', 'ǆ', 'ǅ', 'élan', '中', '😀', 'k', 'K', 'ſ', 'if', 'i', 'İ', 'σς', 'ab cd', '"', '\t', 'a\nb', '$', '.*', '[^a]', '(?i)a']
-BLITS = [b'a', b'AB', b'a+', b'\xff', b'\x00a', b'k\xc3\xa9', b'\x80\x81', b'[a]', b'\\', b'Z\xe4']
+BLITS = [b'a', b'AB', b'a+', b'\xff', b'\x00a', b'k\xc3\xa9', b'\x80\x81', b'[a]', b'\\', b'Z\xe4', b'a\xffb', b'\xfe\xff', b'\x00', b'\xff\xff\x00', b'k\xff']
 
 
 def c10_token_case(w, ic):
@@ -316,6 +316,16 @@ def fam_c08(R, n):
                     if not vs:
                         vs.append('#[token("zzzz")] Z,')
                     out.append(dict(family='c08-positions', src=enum(attrs, vs), meta=dict(leaves=None)))
+    # the same pattern text twice on one variant (the attributes differ in callback, ignore(case), kind or not at all): a tie like
+    # any other, whatever the diagnostics call the two leaves
+    for (a1, a2, body) in [('#[token("ab", |_| 1u8)]', '#[token("ab", |_| 2u8)]', 'Pair(u8)'), ('#[token("on")]', '#[token("on", ignore(case))]', 'On'),
+                           ('#[regex("a+")]', '#[regex("a+", |_| ())]', 'A'), ('#[token("x")]', '#[token("x")]', 'X'), ('#[token("ab")]', '#[regex("ab")]', 'Ab'),
+                           ('#[regex("[0-9]+", priority = 5)]', '#[regex("[0-9]+", priority = 5, callback = |_| ())]', 'N'),
+                           ('#[token("if", priority = 3)]', '#[token("if", priority = 4)]', 'If'), ('#[token(b"ab")]', '#[token("ab")]', 'Ab')]:
+        for order in ((a1, a2), (a2, a1)):
+            for bystander in (False, True):
+                vs = ['%s\n    %s\n    %s,' % (order[0], order[1], body)] + (['#[regex("[a-z0-9]+", priority = 1)] W,'] if bystander else [])
+                out.append(dict(family='c08-same-variant', src=enum([], vs), meta=dict(leaves=None)))
     # many patterns matching one string (fixed-size buffers, per-state lists): n bystanders at distinct lower priorities, then a
     # tied pair at the top - first, last, or around the bystanders - and the same with the top unique
     for nb in (15, 16, 17, 31, 33, 64, 65):
